@@ -107,11 +107,14 @@ func FirstDiff(a, b *Snap) (name, path string) {
 // Cell is one writable location.
 type Cell struct {
 	Path    string
-	Name    string // name of the region that holds the cell
-	Part    int    // index of the holding region (Snap.Regions)
-	RawPart int    // index of the holding part (Snap.Parts)
-	Ref     bool   // slice header / pointer / interface / map entry
-	Safe    int    // >0: a persistent change here keeps the record packable (1 = octet, 2 = uint16 list, 3 = text)
+	Name    string        // name of the region that holds the cell
+	Part    int           // index of the holding region (Snap.Regions)
+	RawPart int           // index of the holding part (Snap.Parts)
+	Ref     bool          // slice header / pointer / interface / map entry
+	Tag     string        // the dns:"..." tag of the enclosing struct field (without :size)
+	Kind    reflect.Kind  // kind of the location
+	V       reflect.Value // the location itself (settable)
+	Safe    int           // >0: a persistent change here keeps the record packable (1 = octet, 2 = uint16 list, 3 = text)
 	Mutate  func() (revert func())
 }
 
@@ -122,6 +125,7 @@ type walker struct {
 	seen    map[seenKey]int
 	doCells bool
 	safe    int // class of the slice element being rendered (see Cell.Safe)
+	tag     string
 }
 
 // pth is a path built lazily: most paths are never printed.
@@ -285,7 +289,7 @@ func (w *walker) addCell(v reflect.Value, pp *pth, name string, part int, ref bo
 	if !v.CanSet() {
 		return
 	}
-	w.cells = append(w.cells, Cell{Path: pp.String(), Name: name, Part: part, Ref: ref, Safe: safe, Mutate: func() func() {
+	w.cells = append(w.cells, Cell{Path: pp.String(), Name: name, Part: part, Ref: ref, Safe: safe, Tag: w.tag, Kind: v.Kind(), V: v, Mutate: func() func() {
 		old := reflect.New(v.Type()).Elem()
 		old.Set(v)
 		switch v.Kind() {
@@ -364,7 +368,19 @@ func (w *walker) value(v reflect.Value, path *pth, owner, fld string, ex, no *st
 			if !f.Anonymous {
 				ff = join(f2, lname(f.Name))
 			}
+			tg := w.tag
+			if w.doCells {
+				if t := f.Tag.Get("dns"); t != "" {
+					if k := strings.IndexByte(t, ':'); k >= 0 {
+						t = t[:k]
+					}
+					w.tag = t
+				} else if !f.Anonymous {
+					w.tag = ""
+				}
+			}
 			w.value(v.Field(i), path.add("."+f.Name), o2, ff, ex, no, part)
+			w.tag = tg
 			ex.WriteByte(' ')
 			no.WriteByte(' ')
 		}
